@@ -109,25 +109,45 @@ def clauseOk (P : Params) (k : Clause) (g : Ghost) (op : Op) (o : Obs) : Bool :=
   | .neverStuck =>
       if op = .succ ∧ g.recov ≥ 2 ∧ (g.recov - 2) + 1 ≥ P.succNeeded then o.phase == .closed else true
 
+namespace Ghost
+def nowAfter (g : Ghost) : Op → Int
+  | .tick d => g.now + d
+  | _ => g.now
+def failsAfter (g : Ghost) : Op → Nat
+  | .fail => g.consecFails + 1
+  | .succ => 0
+  | _ => g.consecFails
+def lastFailAfter (g : Ghost) : Op → Option Int
+  | .fail => some g.now
+  | _ => g.lastFailAt
+def admittedAfter (g : Ghost) (adm : Bool) : Op → Nat
+  | .fail => 0
+  | _ => if adm then g.admitted + 1 else g.admitted
+def succsAfter (g : Ghost) : Op → Nat
+  | .fail => 0
+  | .succ => if g.admitted ≥ 1 then g.succs + 1 else g.succs
+  | _ => g.succs
+def recovAfter (P : Params) (g : Ghost) : Op → Nat
+  | .tick d => if (d : Int) > P.timeout then 1 else 0
+  | .ask    => if g.recov = 1 then 2 else 0
+  | .fail   => 0
+  | .succ   => if g.recov ≥ 2 then g.recov + 1 else 0
+end Ghost
+
 /-- Bookkeeping update after one observed step (field by field, so that every projection
     of the result unfolds on its own). A probe is an `ask` that was let through while the
     breaker did not report `closed`; a reported `closed` ends the episode. -/
 def Ghost.step (P : Params) (g : Ghost) (op : Op) (o : Obs) : Ghost :=
   let adm : Bool := decide (op = .ask ∧ g.phase ≠ .closed ∧ o.res = some true)
   let cl  : Bool := decide (o.phase = .closed)
-  { now := (match op with | .tick d => g.now + d | _ => g.now),
-    consecFails := (match op with | .fail => g.consecFails + 1 | .succ => 0 | _ => g.consecFails),
-    lastFailAt := (match op with | .fail => some g.now | _ => g.lastFailAt),
+  { now := g.nowAfter op,
+    consecFails := g.failsAfter op,
+    lastFailAt := g.lastFailAfter op,
     phase := o.phase,
     lastAdmit := if cl then none else if adm then some g.now else g.lastAdmit,
-    admitted := if cl then 0 else (match op with | .fail => 0 | _ => if adm then g.admitted + 1 else g.admitted),
-    succs := if cl then 0 else (match op with
-      | .fail => 0 | .succ => (if g.admitted ≥ 1 then g.succs + 1 else g.succs) | _ => g.succs),
-    recov := (match op with
-      | .tick d => if (d : Int) > P.timeout then 1 else 0
-      | .ask    => if g.recov = 1 then 2 else 0
-      | .fail   => 0
-      | .succ   => if g.recov ≥ 2 then g.recov + 1 else 0) }
+    admitted := if cl then 0 else g.admittedAfter adm op,
+    succs := if cl then 0 else g.succsAfter op,
+    recov := g.recovAfter P op }
 
 /-- Does clause `k` hold at every step of the observed history? -/
 def holdsFrom (P : Params) (k : Clause) : Ghost → List (Op × Obs) → Bool
